@@ -7,6 +7,9 @@ use std::panic::{catch_unwind, AssertUnwindSafe};
 use std::path::{Path, PathBuf};
 use walrus_rust::{FsyncSchedule, ReadConsistency, Walrus};
 
+/// Replaced (non-allowed) characters; the later ones look like path-significant ASCII characters.
+const UCHARS: [char; 9] = ['é', '日', 'ß', '\u{FF0F}', '\u{FF0E}', '\u{FF3C}', '\u{2215}', '\u{2024}', '\u{FF5E}'];
+
 fn concrete(class: &str, variant: usize, pos: usize) -> char {
     match class {
         "a" => ['a', 'Z', '7', 'q', '0'][(variant + pos) % 5],
@@ -16,7 +19,7 @@ fn concrete(class: &str, variant: usize, pos: usize) -> char {
         "/" => '/',
         "s" => [' ', '\t', '\n'][(variant + pos) % 3],
         "0" => '\0',
-        "u" => ['é', '日', 'ß'][(variant + pos) % 3],
+        "u" => UCHARS[(variant + pos) % UCHARS.len()],
         _ => '?',
     }
 }
@@ -52,7 +55,12 @@ pub fn main(args: &[String]) -> i32 {
         }
         let v: Value = serde_json::from_str(line).expect("key json");
         let classes: Vec<String> = v["k"].as_array().unwrap().iter().map(|x| x.as_str().unwrap().to_string()).collect();
-        let key: String = classes.iter().enumerate().map(|(i, c)| concrete(c, variant, i)).collect();
+        // "uvar": force one particular replaced character for every position of class "u"
+        let uvar = v["uvar"].as_u64().map(|x| x as usize);
+        let key: String = classes.iter().enumerate().map(|(i, c)| match (c.as_str(), uvar) {
+            ("u", Some(j)) => UCHARS[j % UCHARS.len()],
+            _ => concrete(c, variant, i),
+        }).collect();
         let expect: Vec<String> = v["d"].as_array().unwrap().iter().map(|x| x.as_str().unwrap().to_string()).collect();
         // expected directory name from the model
         let exp_name: Option<String> = if expect.len() == 1 && expect[0] == "HASH" {
